@@ -47,7 +47,15 @@ def run_plans(wd, plans, tag, v=None, key="conn:abort"):
         for p in plans:
             f.write(json.dumps(p, separators=(",", ":")) + "\n")
     trace, blobs, decoded = [os.path.join(wd, tag + x) for x in (".trace.ndjson", ".blobs.ndjson", ".decoded.ndjson")]
-    rc, err = core.run_harness(vh, "connect", ["--plans", pp, "--trace", trace, "--blobs", blobs], timeout=3000)
+    # generous per-plan allowance (a TLS + NLA handshake takes milliseconds): a driver that does not come back is the code
+    # under test spinning or blocking for ever, which is an observation about the code as well
+    allowance = 180 + len(plans) // 2
+    try:
+        rc, err = core.run_harness(vh, "connect", ["--plans", pp, "--trace", trace, "--blobs", blobs], timeout=allowance)
+    except core.ToolError:
+        if v is None:
+            raise
+        rc, err = -999, "no return within %d s (%d plans)" % (allowance, len(plans))
     if rc is not None and rc < 0 and v is not None and os.path.exists(trace):
         def complete(path):
             good = []
@@ -64,7 +72,9 @@ def run_plans(wd, plans, tag, v=None, key="conn:abort"):
             open(blobs, "w").write("\n".join(complete(blobs)) + "\n")
         last = next((json.loads(l) for l in reversed(lines) if '"ev":"reset"' in l.replace('": "', '":"')), {})
         where = re.sub(r"\s+", " ", " ".join(x.strip() for x in err.split("\n") if "rdp::" in x)[:300])
-        v.violation(key, "the driver process died (rc %s: abort / refused allocation / stack overflow) inside the library while running plan %s: %s" % (rc, last.get("run"), where),
+        v.violation(key if rc != -999 else key.replace("abort", "hang"),
+                    ("the connect call did not return (spinning or blocked for ever) while running plan %s: %s" % (last.get("run"), err)) if rc == -999 else
+                    "the driver process died (rc %s: abort / refused allocation / stack overflow) inside the library while running plan %s: %s" % (rc, last.get("run"), where),
                     {"plan": [p for p in plans if p.get("id") == last.get("run")][:1], "stderr": err[-3000:]})
         # keep what was recorded before the plan in flight
         starts = [i for i, l in enumerate(lines) if '"ev":"reset"' in l.replace('": "', '":"')]
